@@ -1,7 +1,7 @@
 // Kani harnesses for integer/src/div/mod.rs: `fast_div_by_dword_in_place` (uses `rchunks_exact_mut`, which the
 // Verus dialect cannot express). BOUNDED stand-in: slice lengths 2..=5 (no chunk / single-word rest / one chunk /
 // chunk + rest), concrete divisors (so that num_modular's reciprocal is a constant), words from a palette with
-// 4 symbolic bits each (never full-width symbolic multiplications, see engine/README.md).
+// 4 symbolic bits each (2 bits for length 5) (never full-width symbolic multiplications, see engine/README.md).
 // Contract checked (the one the Verus unit int_div_dword assumes for this function), C02:
 //     value(old) == value(final) * rhs + ret   and   ret < rhs        where rhs = divisor >> shift.
 use super::*;
@@ -13,8 +13,9 @@ const VK_DD_RHS: [DoubleWord; 3] = [
     0x0000_1234_5678_9abc_def0_0fed_cba9_8765, // shift 19
 ];
 
-fn vk_dd_palette_word() -> Word {
+fn vk_dd_palette_word(fine: bool) -> Word {
     let sel: u8 = any();
+    assume(fine || sel < 4);
     let base: Word = match sel & 3 {
         0 => 0,
         1 => Word::MAX,
@@ -77,7 +78,7 @@ fn vk_dd_fast_div_check<const N: usize, const M: usize, const K: usize>() {
     let mut words = [0 as Word; N];
     let mut i = 0;
     while i < N {
-        words[i] = vk_dd_palette_word();
+        words[i] = vk_dd_palette_word(N <= 4);
         i += 1;
     }
     let old = words;
